@@ -60,6 +60,13 @@ type Options struct {
 	// PureCall names zero-side-effect accessor methods/functions whose calls may be
 	// forward-substituted like pure expressions (set by the index/shape rules).
 	PureCall func(name string) bool
+	// KeepTaglessSwitch keeps `switch { case c: … }` as a switch node instead of an if-chain.
+	KeepTaglessSwitch bool
+	// KeepCountingLoops keeps `for i := 0; i < len(x); i++` as a loop node instead of a range node.
+	KeepCountingLoops bool
+	// DeclOf resolves a function object of the module to its declaration and the type info of
+	// its package (for inlining boolean helpers into formulas).
+	DeclOf func(f *types.Func) (*ast.FuncDecl, *types.Info)
 }
 
 type Canon struct {
@@ -77,6 +84,9 @@ type Canon struct {
 	bind        map[types.Object]string
 	rangeDepth  int
 	nTypeSwitch int
+	boolDefs    map[types.Object]ast.Expr
+	boolDepth   int
+	inlineDepth int
 }
 
 func NewCanon(fset *token.FileSet, info *types.Info, opt Options) *Canon {
@@ -395,6 +405,32 @@ func (c *Canon) stmt(st ast.Stmt) []*Node {
 				}
 				return c.assign1(x.Lhs[0], x.Rhs[0], rhs, x.Tok == token.DEFINE, x.Pos())
 			}
+			// `a, b := e1, e2` of variables assigned nowhere else is two definitions
+			if x.Tok == token.DEFINE {
+				single := true
+				for _, l := range x.Lhs {
+					id, ok := l.(*ast.Ident)
+					if !ok || id.Name == "_" {
+						single = false
+						break
+					}
+					if o := c.obj(id); o == nil || c.nAssign[o] > 1 {
+						single = false
+						break
+					}
+				}
+				if single {
+					var rs []string
+					for _, r := range x.Rhs {
+						rs = append(rs, c.Expr(r))
+					}
+					var out []*Node
+					for i, l := range x.Lhs {
+						out = append(out, c.assign1(l, x.Rhs[i], rs[i], true, x.Pos())...)
+					}
+					return out
+				}
+			}
 			// parallel assignment: evaluate all rhs first
 			var rs []string
 			for _, r := range x.Rhs {
@@ -513,6 +549,22 @@ func (c *Canon) stmt(st ast.Stmt) []*Node {
 		c.invalidateWritten(n)
 		return append(out, n)
 	case *ast.ForStmt:
+		if iv, over, ok := c.countingLoopOverLen(x); ok && !c.Opt.KeepCountingLoops {
+			// `for i := 0; i < len(X); i++ { … }` with i and X untouched in the body is `for i := range X`
+			overS := c.Expr(over)
+			n := &Node{Kind: "range", Pos: x.Pos()}
+			label := "@r"
+			if c.rangeDepth > 0 {
+				label = fmt.Sprintf("@r%d", c.rangeDepth)
+			}
+			c.rangeDepth++
+			c.bind[iv] = label
+			n.Head = "range " + overS + " as " + label
+			n.Kids = c.block(x.Body.List)
+			c.rangeDepth--
+			c.invalidateWritten(n)
+			return []*Node{n}
+		}
 		var out []*Node
 		// the loop variable(s) are state: make sure they are not substituted
 		if x.Init != nil {
@@ -581,6 +633,53 @@ func (c *Canon) stmt(st ast.Stmt) []*Node {
 		if x.Tag != nil {
 			tag = c.Expr(x.Tag)
 		}
+		if x.Tag == nil && !c.Opt.KeepTaglessSwitch && taglessSwitchIsIfChain(x) {
+			// `switch { case a: A; case b: B; default: D }` is `if a {A} else if b {B} else {D}`
+			var conds []string
+			var bodies [][]*Node
+			var poss []token.Pos
+			var deflt []*Node
+			hasDefault := false
+			for _, cl := range x.Body.List {
+				cc := cl.(*ast.CaseClause)
+				s := c.saveSubst()
+				if cc.List == nil {
+					hasDefault = true
+					deflt = c.block(cc.Body)
+					c.subst = s
+					continue
+				}
+				cond := ""
+				for i, e := range cc.List {
+					ce := c.Expr(e)
+					if i == 0 {
+						cond = ce
+					} else {
+						cond = "(" + cond + " || " + ce + ")"
+					}
+				}
+				conds = append(conds, cond)
+				bodies = append(bodies, c.block(cc.Body))
+				poss = append(poss, cc.Pos())
+				c.subst = s
+			}
+			var chain []*Node
+			if hasDefault {
+				chain = deflt
+			}
+			for i := len(conds) - 1; i >= 0; i-- {
+				n := &Node{Kind: "if", Head: conds[i], Kids: bodies[i], Else: chain, Pos: poss[i]}
+				if n.Else != nil && strings.HasPrefix(n.Head, "!") {
+					n.Head = Negate(n.Head)
+					n.Kids, n.Else = n.Else, n.Kids
+				}
+				chain = []*Node{n}
+			}
+			for _, n := range chain {
+				c.invalidateWritten(n)
+			}
+			return append(out, chain...)
+		}
 		n := &Node{Kind: "switch", Head: "switch " + tag, Pos: x.Pos()}
 		for _, cl := range x.Body.List {
 			cc := cl.(*ast.CaseClause)
@@ -645,6 +744,150 @@ func (c *Canon) stmt(st ast.Stmt) []*Node {
 	}
 	c.note("unhandled stmt %T", st)
 	return []*Node{{Kind: "?", Head: fmt.Sprintf("?%T", st), Pos: st.Pos()}}
+}
+
+// countingLoopOverLen recognises `for i := 0; i < len(X); i++` (also `len(X) > i`, `i += 1`)
+// whose body assigns neither i nor the root variable of X.
+func (c *Canon) countingLoopOverLen(x *ast.ForStmt) (types.Object, ast.Expr, bool) {
+	as, ok := x.Init.(*ast.AssignStmt)
+	if !ok || as.Tok != token.DEFINE || len(as.Lhs) != 1 || len(as.Rhs) != 1 {
+		return nil, nil, false
+	}
+	id, ok := as.Lhs[0].(*ast.Ident)
+	if !ok {
+		return nil, nil, false
+	}
+	if lit, ok := as.Rhs[0].(*ast.BasicLit); !ok || lit.Value != "0" {
+		return nil, nil, false
+	}
+	iv := c.obj(id)
+	if iv == nil {
+		return nil, nil, false
+	}
+	isI := func(e ast.Expr) bool {
+		j, ok := e.(*ast.Ident)
+		return ok && c.obj(j) == iv
+	}
+	lenOf := func(e ast.Expr) ast.Expr {
+		call, ok := e.(*ast.CallExpr)
+		if !ok || len(call.Args) != 1 {
+			return nil
+		}
+		f, ok := call.Fun.(*ast.Ident)
+		if !ok || f.Name != "len" {
+			return nil
+		}
+		if _, isBuiltin := c.Info.Uses[f].(*types.Builtin); !isBuiltin {
+			return nil
+		}
+		return call.Args[0]
+	}
+	be, ok := x.Cond.(*ast.BinaryExpr)
+	if !ok {
+		return nil, nil, false
+	}
+	var over ast.Expr
+	switch {
+	case be.Op == token.LSS && isI(be.X):
+		over = lenOf(be.Y)
+	case be.Op == token.GTR && isI(be.Y):
+		over = lenOf(be.X)
+	}
+	if over == nil {
+		return nil, nil, false
+	}
+	switch p := x.Post.(type) {
+	case *ast.IncDecStmt:
+		if p.Tok != token.INC || !isI(p.X) {
+			return nil, nil, false
+		}
+	case *ast.AssignStmt:
+		if p.Tok != token.ADD_ASSIGN || len(p.Lhs) != 1 || !isI(p.Lhs[0]) {
+			return nil, nil, false
+		}
+		if lit, ok := p.Rhs[0].(*ast.BasicLit); !ok || lit.Value != "1" {
+			return nil, nil, false
+		}
+	default:
+		return nil, nil, false
+	}
+	// the iterated value must be a plain variable (or a field/selector chain of one) and pure
+	root := over
+	for {
+		switch r := root.(type) {
+		case *ast.SelectorExpr:
+			root = r.X
+			continue
+		case *ast.ParenExpr:
+			root = r.X
+			continue
+		}
+		break
+	}
+	rid, ok := root.(*ast.Ident)
+	if !ok {
+		return nil, nil, false
+	}
+	rootObj := c.obj(rid)
+	touched := false
+	ast.Inspect(x.Body, func(m ast.Node) bool {
+		switch y := m.(type) {
+		case *ast.AssignStmt:
+			for _, l := range y.Lhs {
+				if j, ok := l.(*ast.Ident); ok {
+					if o := c.obj(j); o == iv || (rootObj != nil && o == rootObj) {
+						touched = true
+					}
+				}
+			}
+		case *ast.IncDecStmt:
+			if isI(y.X) {
+				touched = true
+			}
+		case *ast.UnaryExpr:
+			if y.Op == token.AND && isI(y.X) {
+				touched = true
+			}
+		}
+		return !touched
+	})
+	if touched {
+		return nil, nil, false
+	}
+	return iv, over, true
+}
+
+// taglessSwitchIsIfChain: no fallthrough, and no unlabeled break that targets the switch itself.
+func taglessSwitchIsIfChain(x *ast.SwitchStmt) bool {
+	ok := true
+	var walk func(n ast.Node, depth int)
+	walk = func(n ast.Node, depth int) {
+		ast.Inspect(n, func(m ast.Node) bool {
+			if !ok || m == nil {
+				return false
+			}
+			switch y := m.(type) {
+			case *ast.BranchStmt:
+				if y.Tok == token.FALLTHROUGH || (y.Tok == token.BREAK && y.Label == nil) {
+					ok = false
+				}
+				return false
+			case *ast.ForStmt, *ast.RangeStmt, *ast.SwitchStmt, *ast.TypeSwitchStmt, *ast.SelectStmt, *ast.FuncLit:
+				if m != n {
+					// breaks inside belong to the inner statement; fallthrough cannot cross it
+					return false
+				}
+			}
+			return true
+		})
+	}
+	for _, cl := range x.Body.List {
+		cc := cl.(*ast.CaseClause)
+		for _, st := range cc.Body {
+			walk(st, 0)
+		}
+	}
+	return ok
 }
 
 func (c *Canon) saveSubst() map[types.Object]string {
@@ -1077,7 +1320,7 @@ func (c *Canon) Expr(e ast.Expr) string {
 // Negate a canonical boolean expression.
 func Negate(s string) string {
 	if strings.HasPrefix(s, "!(") && strings.HasSuffix(s, ")") && balanced(s[2:len(s)-1]) {
-		return s[2 : len(s)-1]
+		return s[1:] // keep the parentheses: the operand is a binary expression
 	}
 	if strings.HasPrefix(s, "!") && !strings.ContainsAny(s[1:], " ") {
 		return s[1:]
